@@ -72,12 +72,23 @@ Print Assumptions C19_table_exact_entries.
 Definition simple4 : list graph := flat_map (fun a => flat_map (fun b => flat_map (fun c => flat_map (fun d => flat_map (fun e => map (fun f =>
   [[0;a;b;c];[a;0;d;e];[b;d;0;f];[c;e;f;0]]) [0;1]) [0;1]) [0;1]) [0;1]) [0;1]) [0;1].
 Definition simple3 : list graph := flat_map (fun a => flat_map (fun b => map (fun c => [[0;a;b];[a;0;c];[b;c;0]]) [0;1]) [0;1]) [0;1].
+(* all labelled simple graphs on n vertices: one bit per pair *)
+Definition simple_n (n : nat) : list graph :=
+  map (fun bs => tab n (fun v => tab n (fun w => if Nat.eqb v w then 0 else
+         let a := Nat.min v w in let b := Nat.max v w in nthZ bs (a * (2 * n - a - 1) / 2 + (b - a - 1))))) (all_seqs [0;1] (n * (n - 1) / 2)).
 Definition bramble_minus_1 (g : graph) : Z := if is_complete_simple g then Z.of_nat (nv g) - 1 else min_degree g.
 Theorem C19_min_degree_and_bramble_bounded : forallb (fun g => if connected_b g then
     match compute_gonality 300 g (nv g) false with Done (k, _) => (min_degree g <=? k) && (bramble_minus_1 g <=? k) && (k <=? Z.of_nat (nv g) - Z.of_nat (indep_number g)) | OutOfFuel => false end
   else true) (simple3 ++ simple4) = true.
 Proof. vm_compute. reflexivity. Qed.
 Print Assumptions C19_min_degree_and_bramble_bounded.
+(* the same three bounds on ALL 1024 labelled simple graphs on 5 vertices (728 connected ones), by kernel computation of every gonality *)
+Theorem C19_bounds_all_graphs_on_5_vertices_bounded : length (simple_n 5) = 1024%nat /\ forallb wfb (simple_n 5) = true /\
+  forallb (fun g => if connected_b g then
+    match compute_gonality 300 g (nv g) false with Done (k, _) => (min_degree g <=? k) && (bramble_minus_1 g <=? k) && (k <=? Z.of_nat (nv g) - Z.of_nat (indep_number g)) | OutOfFuel => false end
+  else true) (simple_n 5) = true.
+Proof. split; [|split]; vm_compute; reflexivity. Qed.
+Print Assumptions C19_bounds_all_graphs_on_5_vertices_bounded.
 
 (* ---- recorded finding d7a: the multipartite closed form uses the smallest part ---- *)
 Theorem complete_multipartite_refuted : exists parts, multipartite_formula_as_implemented parts = 3 /\
